@@ -70,6 +70,14 @@ WHY_MISSED = {
     "C06_12": "Cox forward recursion by subtraction: algebraically equal, catastrophic cancellation (§4 C06)",
     "C19_10": "value of the MCP prox at the fallback step (sign is decided by R-FALLBACK, the value is numeric)",
     "C11_11": "Cox times replaced by ordinal ranks: a value transformation of y that only matters with ties (§4 C11)",
+    "C07_19": "prox_log_sum regime selector `alpha <= eps`: which stationary candidate is the global minimiser is not claimed (§4 C07)",
+    "C09_21": "default iteration budget of the power method: its accuracy after a generic start is not decided (§4 C09)",
+    "C11_20": "Cox tie test counting unique times over all samples: a value-dependent decision on runtime data",
+    "C12_19": "label mapping relative to n_classes_ - 1: differs from the arithmetic mapping only for single-class training data",
+    "C16_19": "hard-thresholding branch of prox_MCP for gamma below the step: agreement of alpha_max with the prox is decided on the usual step range only",
+    "C19_19": "group Lipschitz bound of the prox-Newton model taken as the largest column norm: a numeric bound on collinear columns, not visible structurally",
+    "C19_20": "domain check of the Gamma datafit relaxed to y < 0: validity ranges of targets are not modelled",
+    "C19_21": "order of the two threshold tests of prox_MCP: differs only at the fallback step (value of a prox far outside its step range, as C19_10)",
     "C10_14": "numpy's buffered `a[idx] += v` with repeated indices: a CSC matrix with duplicate entries is outside the input contract the CSC helpers already assume",
     "C06_16": "Logistic.raw_grad rewritten in an algebraically equal form that overflows (inf / inf) for margins below -709: numeric",
     "C11_17": "Cox tie test on mis-aligned masks: a value-dependent decision on runtime data",
